@@ -289,13 +289,22 @@ class DefaultLayout(_BaseLayout[_MaildirT]):
     def _rename_folder(self, source_parts: _Parts, dest_parts: _Parts) -> None:
         subdir = self._get_subdir(source_parts)
         dest_subdir = self._get_subdir(dest_parts)
+        renames: list[tuple[str, str]] = []
         for elem in os.listdir(self._path):
             if elem == subdir or elem.startswith(subdir + '.'):
                 elem_path = os.path.join(self._path, elem)
                 if os.path.isdir(elem_path):
                     dest_elem = dest_subdir + elem[len(subdir):]
                     dest_elem_path = os.path.join(self._path, dest_elem)
-                    os.rename(elem_path, dest_elem_path)
+                    renames.append((elem_path, dest_elem_path))
+        # refuse before anything has been moved: renaming onto an existing
+        # folder fails with ENOTEMPTY, or replaces it when it is empty
+        for elem_path, dest_elem_path in renames:
+            if dest_elem_path != elem_path \
+                    and os.path.lexists(dest_elem_path):
+                raise FileExistsError(dest_elem_path)
+        for elem_path, dest_elem_path in renames:
+            os.rename(elem_path, dest_elem_path)
 
 
 class FilesystemLayout(_BaseLayout[_MaildirT]):
@@ -337,4 +346,7 @@ class FilesystemLayout(_BaseLayout[_MaildirT]):
     def _rename_folder(self, source_parts: _Parts, dest_parts: _Parts) -> None:
         path = self._get_path(source_parts)
         dest_path = self._get_path(dest_parts)
+        if dest_path != path and os.path.lexists(dest_path):
+            # os.rename fails with ENOTEMPTY, or replaces an empty directory
+            raise FileExistsError(dest_path)
         os.rename(path, dest_path)
